@@ -123,7 +123,19 @@ def history_strategy(tier):
     return seq()
 
 
-def evaluate_quic(code):
+def evaluate_quic_pair(spec):
+    """the QUIC resolver as a connection uses it: first for the suite the ClientHello offers first, then for the one the ServerHello
+    selects - the parameters after the second call are those of the second code point"""
+    first, second = spec
+    r = evaluate_quic(second, first)
+    if r.get("sig"):
+        r["sig"] = "after another suite was resolved for the same connection: " + r["sig"]
+    r["key"] = "qp%d/%d" % (first, second)
+    r["labels"] = ["quic-pair"]
+    return r
+
+
+def evaluate_quic(code, first=None):
     """second resolver: QuicSession.set_tls_decryptors"""
     from tlexport.quic.quic_session import QuicSession
     from tlexport.quic.quic_decode import QuicVersion
@@ -139,6 +151,8 @@ def evaluate_quic(code):
     qs.early_traffic_keys = False
     exc = None
     try:
+        if first is not None:
+            qs.set_tls_decryptors(cr, first.to_bytes(2, "big"))
         qs.set_tls_decryptors(cr, code.to_bytes(2, "big"))
     except Exception as e:  # noqa
         exc = type(e).__name__
@@ -208,13 +222,15 @@ def stages(tier):
     d = Stage("all-code-points-descending", evaluate, specs=list(range(65535, -1, -1)), chunksize=2048)
     h = Stage("call-histories", evaluate_history, strategy=history_strategy, examples=4000 if tier == "quick" else 200000)
     b = Stage("quic-resolver-all-code-points", evaluate_quic, specs=list(range(65536)), chunksize=2048)
-    return [a, d, b, h, u]
+    q = Stage("quic-resolver-selected-after-offered", evaluate_quic_pair,
+              specs=[[f, s_] for f in (0x1301, 0x1302, 0x1303, 0x1304) for s_ in (0x1301, 0x1302, 0x1303, 0x1304) if f != s_])
+    return [a, d, b, q, h, u]
 
 
 
 
 RULE = ("all 65536 two-byte code points are enumerated (ascending and descending, each resolved twice in a row) for the suite resolver and once "
-        "for the QUIC session's resolver, plus Hypothesis call histories (accepted / neighbouring / registered-but-unsupported / random code "
+        "for the QUIC session's resolver (plus all ordered pairs of QUIC suites: first-offered suite resolved first, selected suite second), plus Hypothesis call histories (accepted / neighbouring / registered-but-unsupported / random code "
         "points with immediate and later repeats) in which every call must give the stateless answer; stage resolution-after-use: after the whole tool decrypted two connections "
         "negotiating a suite (every table suite x version x encrypt-then-MAC, 4 QUIC suites) every accepted code point is resolved again; oracle = "
         "independent registry copy (data/iana_tls_cipher_suites.json) + independent name parser (lib/tlsref.Suite); non-trivial = "
